@@ -8,7 +8,7 @@
     [reachable]); the disjointness theorems treat one request as one atomic function
     of the subtree below its root.  Absence of data races under the Go memory model
     is not expressible in either model (notes/C18.md). *)
-From Coq Require Import Relations.
+From Coq Require Import Relations PeanoNat List.
 From GW Require Import Base Upload UploadProofs Concurrent ConcurrentProofs.
 Local Open Scope N_scope.
 
@@ -133,6 +133,27 @@ Theorem C18_alone_partial : forall (s : list (nat * call)) (t : node) (i : nat) 
   sub p (fst (runs s t)) = sub p (fst (runs (only i s) t)).
 Proof. exact alone. Qed.
 Print Assumptions C18_alone_partial.
+
+(** Requests are not assumed atomic: a THREAD is a root with an adaptive program of
+    primitive calls anchored at that root, and the scheduler may switch threads
+    between any two primitive calls.  Under ANY schedule the view of every thread —
+    its continuation (at the end: its result) and the subtree at its root — is the one
+    obtained by performing its own calls alone, as many as the schedule gave it. *)
+Theorem C18_threads_independent_partial : forall (R : Type) (sched : list nat)
+    (s : list (thread R) * node) (i : nat),
+  thread_roots_disjoint (fst s) ->
+  view (grun s sched) i =
+  option_map (Nat.iter (count_occ Nat.eq_dec sched i) lstep) (view s i).
+Proof. exact @threads_independent. Qed.
+Print Assumptions C18_threads_independent_partial.
+
+(** ... in particular the one it has when only its own calls are scheduled. *)
+Theorem C18_threads_alone_partial : forall (R : Type) (sched : list nat)
+    (s : list (thread R) * node) (i : nat),
+  thread_roots_disjoint (fst s) ->
+  view (grun s sched) i = view (grun s (repeat i (count_occ Nat.eq_dec sched i))) i.
+Proof. exact @threads_alone. Qed.
+Print Assumptions C18_threads_alone_partial.
 
 (** The workload of the correspondence check: whatever interleaving of the clients'
     requests the scheduler produces, every client gets the answers, and the served
